@@ -149,28 +149,53 @@ def check(ctx, tier):
             ok = len(ts) == 2 and ts[0][0] == "property" and ts[1] == ("inversePath", ("URIRef", "http://e/p"))
         obs.append(Ob("D-c", "R-EMIT", "R-EMIT|ShaclSerializer._add_path|inverse=%s" % inv, f.loc(), ok and len(outs) == 1,
                       "%s path emits %s" % ("inverse" if inv else "direct", ts)))
-    st_inst = {"st_type": "http://e/C", "st_property": selfenv["self._instantiation_property_str"], "cardinality": 1,
-               "is_inverse": False}
-    f, outs = run("_add_constraint", {"statement": st_inst, "r_shape_uri": Opaque("shape")})
-    rows += 1
-    ts = [(pred_local(t[1]), t[2]) for o in outs if o[0] == "return" for t in triples(o[2])]
-    preds = [t[0] for t in ts]
-    mins = [lit_value(t[1])[0] for t in ts if t[0] == "minCount"]
-    maxs = [lit_value(t[1])[0] for t in ts if t[0] == "maxCount"]
-    ok = len(outs) == 1 and mins == [1] and maxs == [1] and preds.count("in") == 1 and preds.count("path") == 1 \
-        and (("ext", "RDF.first"), ("URIRef", "http://e/C")) in [(t[0], t[1]) for t in ts] \
-        and not any(x in preds for x in ("nodeKind", "node", "dataType"))
-    obs.append(Ob("D-c", "R-EMIT", "R-EMIT|ShaclSerializer._add_constraint|instantiation", f.loc(), ok,
-                  "instantiation constraint -> 1..1 + sh:in (class) + one sh:path: %s" % preds))
+    INST = selfenv["self._instantiation_property_str"]
+    st_inst = {"st_type": "http://e/C", "st_property": INST, "cardinality": 1, "is_inverse": False}
+    st_inst2 = {"st_type": "http://e/D", "st_property": INST, "cardinality": 1, "is_inverse": False}
     st_reg = {"st_type": "IRI", "st_property": "http://e/p", "cardinality": "+", "is_inverse": False}
-    f, outs = run("_add_constraint", {"statement": st_reg, "r_shape_uri": Opaque("shape")})
+    # shape-level row (entry point of the per-shape emission, whatever the helpers below it look like): a shape of class C
+    # whose instances all carry a second class D, plus one regular constraint
+    shape3 = {"name": "%<http://weso.es/shapes/S>", "class_uri": "http://e/C", "yield_statements()": (st_inst, st_inst2, st_reg),
+              "n_statements": 3}
+    f, outs = run("_add_shape", {"shape": shape3})
     rows += 1
     ts = [(pred_local(t[1]), t[2]) for o in outs if o[0] == "return" for t in triples(o[2])]
     preds = [t[0] for t in ts]
-    ok = len(outs) == 1 and preds.count("path") == 1 and preds.count("nodeKind") == 1 and preds.count("minCount") == 1 \
-        and preds.count("property") == 1 and "maxCount" not in preds
-    obs.append(Ob("D-c", "R-EMIT", "R-EMIT|ShaclSerializer._add_constraint|regular", f.loc(), ok,
-                  "regular constraint -> one property shape with one path, one value restriction, counts: %s" % preds))
+    firsts = sorted(t[1][1] for t in ts if t[0] == ("ext", "RDF.first") and isinstance(t[1], tuple) and t[1][0] == "URIRef")
+    ok = len(outs) == 1 and preds.count("in") == 2 and firsts == ["http://e/C", "http://e/D"] and "dataType" not in preds \
+        and preds.count("nodeKind") == 1 and preds.count("path") == 3 and preds.count("property") == 3
+    obs.append(Ob("D-c", "R-EMIT", "R-EMIT|ShaclSerializer._add_shape|two-class-values-and-a-regular-constraint", f.loc(), ok,
+                  "a shape with two allowed class values and one regular constraint -> two sh:in lists (C, D), one node kind, three "
+                  "property shapes with one path each" if ok else
+                  "shape of class C with typing constraints [C] and [D] and one IRI constraint: expected two sh:in lists (C and D), no "
+                  "sh:dataType, one sh:nodeKind, three paths; the serialiser emits %s with list heads %s" % (sorted(set(map(str, preds))), firsts)))
+    try:
+        f, outs = run("_add_constraint", {"statement": st_inst, "r_shape_uri": Opaque("shape")})
+    except AnalysisError:
+        outs = None       # helper reorganised: the shape-level row above covers the decision
+    if outs is not None:
+        rows += 1
+        ts = [(pred_local(t[1]), t[2]) for o in outs if o[0] == "return" for t in triples(o[2])]
+        preds = [t[0] for t in ts]
+        mins = [lit_value(t[1])[0] for t in ts if t[0] == "minCount"]
+        maxs = [lit_value(t[1])[0] for t in ts if t[0] == "maxCount"]
+        ok = len(outs) == 1 and mins == [1] and maxs == [1] and preds.count("in") == 1 and preds.count("path") == 1 \
+            and (("ext", "RDF.first"), ("URIRef", "http://e/C")) in [(t[0], t[1]) for t in ts] \
+            and not any(x in preds for x in ("nodeKind", "node", "dataType"))
+        obs.append(Ob("D-c", "R-EMIT", "R-EMIT|ShaclSerializer._add_constraint|instantiation", f.loc(), ok,
+                      "instantiation constraint -> 1..1 + sh:in (class) + one sh:path: %s" % preds))
+    try:
+        f, outs = run("_add_constraint", {"statement": st_reg, "r_shape_uri": Opaque("shape")})
+    except AnalysisError:
+        outs = None
+    if outs is not None:
+        rows += 1
+        ts = [(pred_local(t[1]), t[2]) for o in outs if o[0] == "return" for t in triples(o[2])]
+        preds = [t[0] for t in ts]
+        ok = len(outs) == 1 and preds.count("path") == 1 and preds.count("nodeKind") == 1 and preds.count("minCount") == 1 \
+            and preds.count("property") == 1 and "maxCount" not in preds
+        obs.append(Ob("D-c", "R-EMIT", "R-EMIT|ShaclSerializer._add_constraint|regular", f.loc(), ok,
+                      "regular constraint -> one property shape with one path, one value restriction, counts: %s" % preds))
     shape = {"name": "%<http://weso.es/shapes/S>", "class_uri": "http://e/C", "yield_statements()": (), "n_statements": 0}
     f, outs = run("_add_shape", {"shape": shape})
     rows += 1
@@ -189,8 +214,9 @@ def check(ctx, tier):
     o_pure, n_pure = pure.serialisers_do_not_mutate_model(ctx, "D-e", ignore_fields=("_comments",))
     obs.extend(o_pure)
     obs += ctx.attempt(lambda c, cl: direction.explicit_direction(c, cl)[0], ctx, "D-g", default=[])
+    obs += ctx.attempt(lambda c, cl: pure.fresh_receivers(c, cl)[0], ctx, "D-h", default=[])
     exceptions.apply(obs)
-    floors = [Floor("R-TABLE/R-EMIT rows evaluated", rows, 30), Floor("emission loops", n_loops, 4),
+    floors = [Floor("R-TABLE/R-EMIT rows evaluated", rows, 27), Floor("emission loops", n_loops, 4),
               Floor("serializer functions examined for model mutation", n_pure, 40)]
     return {"obs": obs, "floors": floors,
             "explanation": "The SHACL serialiser's emission for every statement kind (IRI, BNode, NONLITERAL, shape label, three "
